@@ -402,12 +402,18 @@ func TestC14(t *testing.T) {
 			spacings = []int{16, 18}
 		}
 		orders := [][]string{{"+f", "+g", "-f", "-g"}, {"+g", "+f", "-g", "-f"}, {"+f", "+g", "-g", "-f"}, {"+g", "+f", "-f", "-g"}, {"+f", "-f", "+g", "+f", "-g", "-f"}}
-		pBase, pMem := c14Map(2 * len(spacings) * len(orders) * 2)
+		pBase, pMem := c14Map(2 * len(spacings) * len(orders) * 2 * 2)
 		rep.Note("synthetic-pairs", fmt.Sprintf("%#x-%#x", pBase, pBase+uintptr(len(pMem))))
 		region := 0
 		for _, sp := range spacings {
 			for oi, order := range orders {
-				for _, off := range []int{256, c14Page - sp} { // second layout: the neighbour's entry is the first byte of the next page
+				for li, off := range []int{256, c14Page - sp, 512, c14Page - sp} { // second layout: the neighbour's entry is the first byte of the next page
+					// layouts 2 and 3: no padding at all between the two (the first one's RET is directly followed
+					// by the second one's first instruction)
+					fsize := sp - 1
+					if li >= 2 {
+						fsize = sp
+					}
 					mem := pMem[region*2*c14Page : (region+1)*2*c14Page]
 					base := pBase + uintptr(region*2*c14Page)
 					region++
@@ -415,7 +421,7 @@ func TestC14(t *testing.T) {
 					for i := range mem {
 						mem[i] = 0xCC
 					}
-					copy(mem[off:], synthFunc(sp-1, 0x111100+uint32(sp)))
+					copy(mem[off:], synthFunc(fsize, 0x111100+uint32(sp)))
 					copy(mem[off+sp:], synthFunc(sp-1, 0x222200+uint32(sp)))
 					mem[off+2*sp+24] = 0xC3 // a lone ret ends every extent scan
 					orig := append([]byte{}, mem...)
